@@ -324,3 +324,69 @@ Example C10_keig_from_krylov_nonvacuous :
    keqb CQ (fst r) (qq (-1) 1, qq 0 1) && keqb CQ (site_dot (snd r) (snd r)) (k1 CQ)
    && keqb CQ (site_dot (snd r) (apply_local_hamiltonian lk_E lk_E lk_W (snd r))) (qq (-1) 1, qq 0 1) && Nat.eqb (length (snd r)) 2) = true.
 Proof. split; [exact lk_keig_ok|vm_compute; reflexivity]. Qed.
+
+(* ---------------------------------------------------------------------------------------------------------------
+   LINK, TWO-SITE (continuation of the linking round; lemmas in Proofs/Link2Ctx.v, Proofs/Link2RunDMRG.v).  The statement
+   recorded above as NOT DONE is proved below as C10_dmrg2_whole_run_lapack: the abstract eigensolver argument of dmrg_twosite
+   is instantiated by keig_lanczos = _minimize_local_energy applied to the merged two-site problem (physical dimension d*d,
+   merged MPO tensor [Hm Hs i] as the code forms it). *)
+From PT Require Import Proofs.OperationTwoSite Proofs.Sweeps2Inv Proofs.Link2Ctx Proofs.Link2RunDMRG.
+
+(* at every state satisfying the two-site invariant Z2 the MERGED local problem at the pair (i, i+1) has consistent shapes
+   (physical dimension d*d), its start tensor carries the norm of the state, and for a Hermitian MPO its effective Hamiltonian
+   is self-adjoint ([local_sa]; from C04_two_site_is_projection + mpo_herm, Proofs/Link2Ctx.v: heff2_hermitian) *)
+Theorem C10_two_site_invariant_gives_local_problem : forall (F : ofield) (Hs : list (osite (Cx F))) d DsW,
+  (0 < d)%nat -> ochain_ok (repeat d (length Hs)) DsW Hs -> hd 0%nat DsW = 1%nat -> Forall (osite_struct d) Hs ->
+  forall (st : sw (Cx F)) i, Z2 (Cx F) Hs d st i ->
+  let M := c04_merge_site (gA st i) (gA st (S i)) in
+  exists Dl Dr Dwl Dwr, (0 < Dwl)%nat /\ (0 < Dwr)%nat /\ osite_ok (d * d) Dwl Dwr (Hm Hs i) /\
+    env_ok Dwl Dl Dl (gBL st i) /\ env_ok Dwr Dr Dr (gBR st (S i)) /\ site_ok (d * d) Dl Dr M /\
+    NN (Cx F) Hs d (s_A st) = site_dot M M /\
+    (mpo_herm F Hs d -> local_sa F (d * d) Dl Dr (apply_local_hamiltonian (gBL st i) (gBR st (S i)) (Hm Hs i))).
+Proof. exact Z2_local_ctx. Qed.
+Print Assumptions C10_two_site_invariant_gives_local_problem.
+
+(* per entry: an EIG2 call issued at a state satisfying Z2 with norm one, whose oracle answers meet the Krylov contracts, meets
+   the Ritz contract keig_ok (d*d) of C10_dmrg2_whole_run *)
+Theorem C10_eig2_entry_from_krylov : forall (F : ofield) dnorm small deigh numiter (Hs : list (osite (Cx F))) d DsW,
+  (0 < d)%nat -> ochain_ok (repeat d (length Hs)) DsW Hs -> hd 0%nat DsW = 1%nat -> Forall (osite_struct d) Hs ->
+  mpo_herm F Hs d -> small_sound F small -> (1 <= numiter)%nat ->
+  forall (st : sw (Cx F)) i p, Z2 (Cx F) Hs d st i -> NN (Cx F) Hs d (s_A st) = k1 (Cx F) ->
+  let Am := c04_merge_site (gA st i) (gA st (S i)) in
+  keig_lanczos_calls_ok F dnorm small deigh numiter (gBL st i) (gBR st (S i)) (Hm Hs i) Am ->
+  keig_ok (d * d) (gBL st i) (gBR st (S i)) (Hm Hs i) Am
+    (keig_lanczos F dnorm small deigh numiter p (gBL st i) (gBR st (S i)) (Hm Hs i) Am).
+Proof. exact eig2_entry_from_krylov. Qed.
+Print Assumptions C10_eig2_entry_from_krylov.
+
+(* along a run: the LAPACK-level contracts of the recorded calls ([lrtr2_ok], Proofs/Link2RunDMRG.v: ldmrg2_call_ok — qr_ok for the
+   final QR of each sweep, split_ok for SPLITL / SPLITR, keig_lanczos_calls_ok for EIG2 with the merged MPO tensor, flattened
+   length d*d*Dl*Dr) imply the Ritz contracts of C10_dmrg2_whole_run *)
+Theorem C10_dmrg2_lapack_to_ritz : forall (F : ofield) orth qr split dnorm small deigh numiter (H : mpo (Cx F)) psi n d DsW Ds0 A qD ens tr,
+  dmrg_twosite orth qr split (keig_lanczos F dnorm small deigh numiter) H psi n = Some (A, qD, ens, tr) ->
+  mpo_shapeb d DsW (o_A H) = true -> mps_shapeb d Ds0 (m_A (fst (orth psi))) = true ->
+  Forall right_iso (m_A (fst (orth psi))) -> (2 <= length (o_A H))%nat ->
+  mpo_herm F (o_A H) d -> small_sound F small -> (1 <= numiter)%nat ->
+  lrtr2_ok qr split dnorm small deigh numiter (o_A H) d (rev tr) ->
+  rtr2_ok qr split (keig_lanczos F dnorm small deigh numiter) (o_A H) d (rev tr).
+Proof. exact dmrg2_lapack_to_ritz. Qed.
+Print Assumptions C10_dmrg2_lapack_to_ritz.
+
+(* WHOLE RUN, two-site (tol_split = 0), END TO END: with the Krylov-based eigensolver the only remaining hypotheses are
+   LAPACK-level contracts on the calls actually issued (block QR, numpy.linalg.norm, eigh_tridiagonal incl. ascending order /
+   the row-0 clause, sound breakdown test), the exact-split contract on the split_mps_tensor calls (C10_split_contract_spec),
+   right-isometry of MPS.orthonormalize's answer, Hermiticity of the MPO ([mpo_herm]) and, for the variational clause, H >= lam *)
+Theorem C10_dmrg2_whole_run_lapack : forall (F : ofield) orth qr split dnorm small deigh numiter (H : mpo (Cx F)) psi n d DsW Ds0 lam A qD ens tr,
+  dmrg_twosite orth qr split (keig_lanczos F dnorm small deigh numiter) H psi n = Some (A, qD, ens, tr) ->
+  mpo_shapeb d DsW (o_A H) = true -> mps_shapeb d Ds0 (m_A (fst (orth psi))) = true ->
+  Forall right_iso (m_A (fst (orth psi))) ->
+  (2 <= length (o_A H))%nat -> bounded_below d (length (o_A H)) (o_A H) lam ->
+  mpo_herm F (o_A H) d -> small_sound F small -> (1 <= numiter)%nat ->
+  lrtr2_ok qr split dnorm small deigh numiter (o_A H) d (rev tr) ->
+  let L := length (o_A H) in
+  let E0 := denergy d L (m_A (fst (orth psi))) (o_A H) in
+  dnorm2 d L A = k1 (Cx F) /\ length ens = n /\
+  Forall (fun e => fle F lam (cre e) /\ fle F (cre e) (cre E0)) ens /\ noninc ens /\
+  (ens <> [] -> last ens (k0 (Cx F)) = denergy d L A (o_A H)).
+Proof. exact dmrg2_run_lapack. Qed.
+Print Assumptions C10_dmrg2_whole_run_lapack.
